@@ -113,6 +113,21 @@ func simGen(r *rand.Rand, tier string, n int) []*wire.Case {
 		mk("d-multikill", s)
 	}
 	{
+		s := base() // every enemy killed by one ultimate run from the queue: the battle is decided inside the queue
+		s.ehp = []float64{500, 500}
+		s.cenergy = []float64{100, 0}
+		s.ults = "1u100"
+		mk("d-ult-multikill", s)
+	}
+	{
+		s := base() // the same from an inserted ability, three adjacent enemies
+		s.ehp = []float64{500, 500, 500}
+		s.espd = []float64{90, 110, 95}
+		s.eaction = []int{4, 4, 4}
+		s.progs[0] = "Ap.1.1.100+I.3.115.0"
+		mk("d-insert-multikill", s)
+	}
+	{
 		s := base() // kill inside an insert; inserted action; insert from a unit that dies first
 		s.ehp = []float64{800, 5000}
 		s.progs = append(s.progs, "Ap.8.1.900", "Ap.1.1.50")
@@ -338,7 +353,14 @@ func simGen(r *rand.Rand, tier string, n int) []*wire.Case {
 			}
 			s.ults = strings.Join(calls, "|")
 		}
+		fragile := r.Intn(6) == 0 // every enemy dies to the first area attack: battles decided in the middle of a queue
 		for e := 0; e < ne; e++ {
+			if fragile {
+				s.ehp = append(s.ehp, pick(r, 100.0, 300))
+				s.espd = append(s.espd, pick(r, 70.0, 100, 100, 120, 158.5))
+				s.eaction = append(s.eaction, 1+r.Intn(nprogs-1))
+				continue
+			}
 			s.ehp = append(s.ehp, pick(r, 300.0, 800, 2000, 6000))
 			s.espd = append(s.espd, pick(r, 70.0, 100, 100, 120, 158.5))
 			s.eaction = append(s.eaction, 1+r.Intn(nprogs-1))
